@@ -295,6 +295,9 @@ func oracleC09(op string, args []string) string {
 	if op == "accl" {
 		return oracleAccL(args)
 	}
+	if op == "accra" {
+		return oracleAccRA(args)
+	}
 	lay := loadLayout()
 	if len(args) != 4 {
 		return skip
@@ -456,6 +459,7 @@ func genAcc(g *Gen, w *bufio.Writer) {
 	per := g.N
 	genAccDNN(g, w, per*10)
 	genAccLen(g, w, per)
+	genAccAlias(g, w, per/3+1)
 	for _, f := range fs {
 		size := 1
 		switch f.Store {
